@@ -1,16 +1,29 @@
 from props_common import COMMON_TRUSTED
+import importlib.util as _ilu, os as _os
+# VerifyHTTPRequest's JSONVerifier is, in deployments, a KeyRing with fetchers: "refused if the signing key was not valid at
+# the time of receipt" depends on what the key ring and its fetchers return (keyring.go is among C13's anchors), so C13
+# carries the key-ring obligations it depends on — the way C06 does
+_sp = _ilu.spec_from_file_location("props_C12_for_C13", _os.path.join(_os.path.dirname(_os.path.abspath(__file__)), "C12.py"))
+_C12 = _ilu.module_from_spec(_sp); _sp.loader.exec_module(_C12)
 
 CONFIG = {
-    "areas": ["fedreq"],
-    "lean": ["VProps.C13"],
-    "sources": ["VProps/C13.lean", "VProofs/FedReq.lean", "VProofs/FedReqStrict.lean", "VModel/FedReq.lean", "VProofs/JsonUtf8.lean", "VProps/C01.lean"],
+    "areas": ["fedreq", "keyring"],
+    # of the key-ring area: the bulk verification flow and validity arithmetic VerifyHTTPRequest goes through, and the
+    # fetchers' handling of a notary answer with several documents of one server (a key moving from verify_keys to
+    # old_verify_keys); the key-response checks (CheckKeys, PublicKey, valid_until_ts in the future) are C12's
+    "op_filter": {"keyring": ["keyring.verify_jsons", "keyring.was_valid_at", "keyring.perspective_history", "keyring.direct_history"]},
+    "lean": ["VProps.C13", "VProps.C13Ring", "VProps.C12"],
+    "sources": ["VProps/C13.lean", "VProofs/FedReq.lean", "VProofs/FedReqStrict.lean", "VModel/FedReq.lean", "VProofs/JsonUtf8.lean", "VProps/C01.lean",
+                "VProps/C13Ring.lean", "VProps/C12.lean", "VModel/KeyRing.lean", "VProofs/KeyRing.lean"],
     "theorems": [
         "V.C13.gen_fields", "V.C13.gen_header_format", "V.C13.gen_safe_ranges",
         "V.C13.header_roundtrip", "V.C13.accepted_facts", "V.C13.refused_if", "V.C13.refused_if_key_invalid",
         "V.C13.binding", "V.C13.signed_request_accepted", "V.C13.canonical_body_facts", "V.C13.signed_request_accepted_canon",
         "V.C13.signed_body_strict", "V.C13.signed_request_accepted_gated", "V.C13.ambiguous_body_refused", "V.C13.sign_refuses",
         "V.C13.refused_if_not_utf8", "V.C13.accepted_fields_utf8", "V.FedReq.canonical_strict",
-    ],
+        "V.C13Ring.accepted_with_keyring_sound", "V.C13Ring.refused_with_keyring_if_key_invalid",
+        "V.C13Ring.mapServerKeys_old_entry", "V.C13Ring.perspective_last_document_decides", "V.C13Ring.retired_entry_invalid",
+    ] + [t for t in _C12.CONFIG["theorems"] if not any(k in t for k in ("checkKeys", "checkVerifyKeys", "publicKey_", "fetchKeysForServer", "fetchNotaryKeys", "direct_accepts", "past_valid_until"))],
     "rule": "verify: NewFederationRequest -> SetContent -> Sign (real ed25519, 4 keys) -> HTTPRequest -> VerifyHTTPRequest in-process against a "
             "real KeyRing over a key-table database: methods (12 + 6 odd) x origins / destinations (13 valid incl. ports, IPv6 literals; 18 odd) x "
             "URIs (26 + 22 odd: paths, queries, escapes, non-round-tripping) x contents (none, 26 JSON values, 8 malformed) x key IDs (6 + 12 odd); "
@@ -27,9 +40,18 @@ CONFIG = {
             "every reader sees; "
             "parseauth: the 44 header spellings x 6 value sets (blanks, quotes, '=', commas, Unicode white space, non-ASCII) plus 1-3 character "
             "mutations, against the model's parseAuthorization; thorough adds every sequence of up to 5 tokens (origin key sig = \" , blank a tab) "
-            "after the scheme (66 430 headers). Non-trivial: every verify op; distinct by op line.",
-    "nontrivial": lambda op, impl: op.startswith("fedreq.verify"),
+            "after the scheme (66 430 headers); "
+            "keyring (the ops of C12's generator that VerifyHTTPRequest depends on): verify_jsons batches x database / fetcher scripts x "
+            "timestamps on every validity boundary x strict / lenient, was_valid_at boundaries, and perspective_history / direct_history: "
+            "a notary answering with 2-3 documents of ONE server (its key-rotation history: document i lists key i current and the "
+            "earlier keys under old_verify_keys with expired_ts in the past; every document self-signed, notary-signed, valid_until_ts "
+            "in the future) oldest first / newest first / shuffled, sometimes another server's document in between. "
+            "Non-trivial: every verify op and every key-ring op that needed a key; distinct by op line.",
+    "nontrivial": lambda op, impl: op.startswith("fedreq.verify") or (op.startswith("keyring.") and (not op.startswith("keyring.verify_jsons") or "|db:none" not in impl)),
     "trusted": COMMON_TRUSTED + [
+        "the JSONVerifier is a function in accepted_facts / refused_if; for a real KeyRing it is discharged by the C12 model "
+        "(V.C13Ring.accepted_with_keyring_sound / refused_with_keyring_if_key_invalid compose the two; perspective_last_document_decides "
+        "says what the perspective fetcher holds for a retired key) whose correspondence ops (keyring.*) run here too",
         "net/http (http.NewRequest, Request.Method / URL / Header / Body as the receiver sees them), net/url (Parse, RequestURI), "
         "mime.ParseMediaType are parameters of the model (their results are computed by the harness with the std-lib and sent along)",
         "encoding/json of the fields struct (string escaping, RawJSON compaction) and CanonicalJSON are modelled by VModel.Json "
